@@ -263,6 +263,7 @@ func init() {
 		}
 		genSegCases(rng, n, 420)
 		genServeCases(rng, n*10, 4, true, 60)
+		genRespSegCases(rng, n/2)
 	}
 	props["C03"] = func(tier string, rng *Rng) {
 		n := 2500
@@ -271,5 +272,48 @@ func init() {
 		}
 		genServeCases(rng, n, 4, true, 15)
 		genReqHeads(rng, n*8)
+		// client response read path under hostile input
+		for i := 0; i < n*2; i++ {
+			s := genResponse(rng, false)
+			switch rng.Intn(3) {
+			case 0:
+				s = mutate(rng, s)
+			case 1:
+				s = s[:rng.Intn(len(s)+1)]
+			}
+			end := "eof"
+			if rng.Intn(6) == 0 {
+				end = "stall"
+			}
+			runOp([]string{"respread", "-", pick(rng, []string{"0", "0", "100"}), end, hx(s), genCuts(rng, len(s))})
+		}
+	}
+}
+
+// genRespSegCases: client direction of C02 — the same response bytes under every two-way split and byte-wise delivery.
+func genRespSegCases(rng *Rng, n int) {
+	for i := 0; i < n; i++ {
+		s := genResponse(rng, rng.Intn(4) != 0)
+		if rng.Intn(3) == 0 {
+			// make sure folded header lines and trailers are frequent
+			s = append([]byte("HTTP/1.1 200 OK\r\nX-Note: first\r\n second\r\n\tthird\r\nTrailer: X-T1\r\nTransfer-Encoding: chunked\r\n\r\n"), encodeChunked(rng, genBodyBytes(rng, rng.Intn(30)), [][2]string{{"X-T1", "v1"}})...)
+		}
+		if len(s) > 400 {
+			s = s[:400]
+		}
+		end := "eof"
+		if rng.Intn(8) == 0 {
+			end = "stall"
+		}
+		h := hx(s)
+		runOp([]string{"respread", "-", "0", end, h, "-"})
+		var all []string
+		for c := 1; c < len(s); c++ {
+			runOp([]string{"respread", "-", "0", end, h, strconv.Itoa(c)})
+			all = append(all, strconv.Itoa(c))
+		}
+		if len(all) > 0 {
+			runOp([]string{"respread", "-", "0", end, h, strings.Join(all, ",")})
+		}
 	}
 }
